@@ -563,7 +563,7 @@ structure Correct (o : Out) : Prop where
   saturated : N.Saturated o.flow.get o.vis
 
 theorem loop_spec (h : N.WF) :
-    ∀ (n : Nat) (f : FlowT) (tot : Int) (k : Nat) (c : Nat × Nat), N.LInv f tot →
+    ∀ (n : Nat) (f : FlowT) (tot : Int) (k : Nat) (c : Cov), N.LInv f tot →
       N.cutCap [N.s] - tot < n → N.Correct (N.loop n f tot k c)
   | 0, f, tot, _, _, hI, hn => by
     have := N.value_le_cutCap h.nodup h.t_mem (S := [N.s]) (by simp)
